@@ -53,9 +53,17 @@ fn enc_slots<T: ShortMessage>(slots: &[Option<T>; 4], obs: &mut Vec<i64>) {
 
 pub fn run_ops(sc: &mut ParameterNumberMessageScanner, ops: &[i64], obs: &mut Vec<i64>) -> bool {
     let mut prev = [0i64, 248, 0, 0];
-    for op in ops.chunks(4) {
+    let mut silent: Option<(usize, i64, usize, usize)> = None;
+    for (idx, op) in ops.chunks(4).enumerate() {
         if op.len() < 4 {
             break;
+        }
+        if op[0] == 11 {
+            // marker: the next 2*w operations are two copies of one block of w operations;
+            // between the two copies the block runs op[1] more times without being observed
+            // (the model runs the two copies: the block is stable from its second run on)
+            silent = Some((idx + op[2].max(0) as usize, op[1].max(0), idx + 1, op[2].max(0) as usize));
+            continue;
         }
         if op[0] == 9 {
             // the previous operation op[1] (>= 2) more times; observed: the first and the last
@@ -110,6 +118,19 @@ pub fn run_ops(sc: &mut ParameterNumberMessageScanner, ops: &[i64], obs: &mut Ve
         match r {
             Some(o) => obs.extend_from_slice(&enc_pn(&o)),
             None => return false,
+        }
+        if let Some((last, n, start, w)) = silent {
+            if idx == last {
+                silent = None;
+                let block = &ops[4 * start..(4 * (start + w)).min(ops.len())];
+                let mut scratch = Vec::new();
+                for _ in 0..n {
+                    scratch.clear();
+                    if !run_ops(sc, block, &mut scratch) {
+                        return false;
+                    }
+                }
+            }
         }
     }
     true
@@ -414,6 +435,8 @@ pub fn gen_c10(tier: Tier, seed: u64, em: &mut Emitter) {
         em.emit_k("running-very-long", 101, inp);
     }
     real_time_records(110, tier, &mut r, em);
+    giant_repeat_records(110, &mut r, em);
+    huge_repeat_records(110, tier, &mut r, em);
 }
 
 /// Abstract alphabet for the bounded-exhaustive part: two values per byte class.
@@ -454,6 +477,7 @@ pub fn gen_c11(tier: Tier, seed: u64, em: &mut Emitter) {
     }
     real_time_records(110, tier, &mut r, em);
     giant_repeat_records(110, &mut r, em);
+    huge_repeat_records(110, tier, &mut r, em);
 }
 
 /// One operation repeated very many times (op kind 9): 70 000 times in the checked builds, more
@@ -479,6 +503,48 @@ pub fn giant_repeat_records(tag: i64, r: &mut Rng, em: &mut Emitter) {
     ];
     for h in hs {
         em.emit_k("one operation repeated very many times", tag, h);
+    }
+    // counts around 2^16 (every count from 65529 to 65541 applications)
+    for d in 0..13i64 {
+        let n = 65_528 + d;
+        em.emit_k("one operation repeated about 2^16 times", tag,
+                  vec![0, s, 99, x, 0, s, 98, y, 0, s, 38, l, 0, s, 99, x, 9, n, 0, 0, 0, s, 98, y, 0, s, 6, m, 0, s, 38, l, 0, s, 6, m]);
+        em.emit_k("one operation repeated about 2^16 times", tag,
+                  vec![0, s, 101, x, 0, s, 100, y, 0, s, 6, m, 9, n, 0, 0, 0, s, 38, l, 0, s, 6, m]);
+    }
+    // a block of two operations about 2^16 times (marker 11): [number byte, value byte] with a
+    // stale LSB from before; [reset, traffic elsewhere] with progress from before
+    let o = 176 + (c + 1) % 16;
+    for d in 0..6i64 {
+        let n = 65_532 + d;
+        for &vb in &[6i64, 96] {
+            let block = [0, s, 98, y, 0, s, vb, m];
+            let mut h = vec![0, s, 99, x, 0, s, 98, y, 0, s, 38, l, 11, n, 2, 0];
+            h.extend_from_slice(&block);
+            h.extend_from_slice(&block);
+            h.extend_from_slice(&[0, s, 6, m]);
+            em.emit_k("a block repeated about 2^16 times", tag, h);
+        }
+        let block = [2, 0, 0, 0, 0, o, 99, 5];
+        let mut h = vec![0, s, 101, x, 0, s, 100, y, 0, s, 38, l, 11, n, 2, 0];
+        h.extend_from_slice(&block);
+        h.extend_from_slice(&block);
+        h.extend_from_slice(&[0, s, 6, m, 0, o, 98, 1, 0, o, 6, 2]);
+        em.emit_k("a block repeated about 2^16 times", tag, h);
+    }
+}
+
+/// thorough tier, optimised build only: one operation 2^32+5 times (about a minute)
+pub fn huge_repeat_records(tag: i64, tier: Tier, r: &mut Rng, em: &mut Emitter) {
+    if tier != Tier::Thorough || cfg!(debug_assertions) {
+        return;
+    }
+    let s = 176 + r.below(16) as i64;
+    let n = (1i64 << 32) + 5;
+    if tag == 80 {
+        em.emit_k("one operation 2^32 times", tag, vec![0, s, 3, 5, 9, n, 0, 0, 2, 0, 0, 0, 0, s, 4, 6, 0, s, 36, 7, 0, s, 3, 8, 0, s, 35, 9]);
+    } else {
+        em.emit_k("one operation 2^32 times", tag, vec![0, s, 99, 1, 0, s, 98, 2, 0, s, 6, 5, 9, n, 0, 0, 2, 0, 0, 0, 0, s, 99, 1, 0, s, 98, 2, 0, s, 38, 3, 0, s, 6, 4]);
     }
 }
 
